@@ -1,0 +1,13 @@
+//go:build verif
+
+package heuristic
+
+import (
+	"github.com/markusmobius/go-domdistiller/internal/webdoc"
+	"golang.org/x/net/html"
+)
+
+// VerifCanonicalReps is SimilarSiblingContent.findCanonicalReps (read-only).
+func VerifCanonicalReps(blocks []*webdoc.TextBlock) []*html.Node {
+	return (&SimilarSiblingContent{}).findCanonicalReps(blocks)
+}
